@@ -572,10 +572,8 @@ class GeoBox(GeoBoxBase):
             bbox = _norm_bbox(bbox.bbox, crs)
 
         if isinstance(shape, (int, float)):
-            if bbox.aspect > 1:
-                resolution = bbox.span_x / shape
-            else:
-                resolution = bbox.span_y / shape
+            # longest side, not via ``bbox.aspect`` it divides by span_y
+            resolution = max(bbox.span_x, bbox.span_y) / shape
             shape = None
 
         if resolution is not None:
